@@ -359,6 +359,7 @@ C          IF (NGAUSS.GT.NPNG1) PRINT 7340, NGAUSS
          CALL CONST(NGAUSS,NMAX,MMAX,P,X,W,AN,ANN,S,SS,NP,EPS)
          CALL VARY(LAM,MRR,MRI,A,EPS,NP,NGAUSS,X,P,PPI,PIR,PII,R,
      &              DR,DDR,DRR,DRI,NMAX)
+         IF (PPI.LT.0D0) GO TO 9999
          CALL TMATR0 (NGAUSS,X,W,AN,ANN,S,SS,PPI,PIR,PII,R,DR,
      &                 DDR,DRR,DRI,NMAX,NCHECK)
          QEXT=0D0
@@ -396,6 +397,7 @@ C       IF (NGAUSS.EQ.NPNG1) PRINT 7336
          CALL CONST(NGAUSS,NMAX,MMAX,P,X,W,AN,ANN,S,SS,NP,EPS)
          CALL VARY(LAM,MRR,MRI,A,EPS,NP,NGAUSS,X,P,PPI,PIR,PII,R,
      &              DR,DDR,DRR,DRI,NMAX)
+         IF (PPI.LT.0D0) GO TO 9999
          CALL TMATR0 (NGAUSS,X,W,AN,ANN,S,SS,PPI,PIR,PII,R,DR,
      &                 DDR,DRR,DRI,NMAX,NCHECK)
          QEXT=0D0
@@ -1003,6 +1005,14 @@ C       IF (NMAX.GT.NPN1) PRINT 9000,NMAX,NPN1
       NNMAX1=1.2D0*DSQRT(DMAX1(TA,DFLOAT(NMAX)))+3D0
       NNMAX2=(TB+4D0*(TB**0.33333D0)+1.2D0*DSQRT(TB))
       NNMAX2=NNMAX2-NMAX+5
+C  RJB AND CJB RECUR DOWNWARDS IN WORK ARRAYS OF 800 AND 1200 ELEMENTS.
+C  FOR LARGE SIZE PARAMETER TIMES REFRACTIVE INDEX THE STARTING ORDER
+C  DOES NOT FIT; WRITING PAST THEM CRASHES THE CALLING PROCESS.
+C  SIGNAL IT TO THE CALLER (PPI IS OTHERWISE POSITIVE) INSTEAD.
+      IF (NMAX+NNMAX1.GT.800.OR.NMAX+NNMAX2.GT.1200) THEN
+         PPI=-1D0
+         RETURN
+      ENDIF
       CALL BESS(Z,ZR,ZI,NG,NMAX,NNMAX1,NNMAX2)
       RETURN
       END
